@@ -658,9 +658,9 @@ def history_execute(ctx, env, st, ans):
                 ctx.violation("remodel-failed-with-complete-backup", {**case, "at": i}, err)
             break                                   # partial effects of a refused run are not modelled
         mf = model_files(m["files"], root_c)
-        if mf != impl_files(after):
+        dis = mf != impl_files(after)
+        if dis:
             ctx.disagree("Backup.runOps = real history", {**case, "at": i}, show(mf), show(impl_files(after)))
-            break
         # ---- direct oracles on the implementation
         if {k: v for k, v in after.items() if k[:3] == ("derivatives", "remodel", "backups")} != \
                 {("derivatives", "remodel", "backups") + k: v for k, v in bsnap0.items()}:
@@ -684,6 +684,8 @@ def history_execute(ctx, env, st, ans):
             prev_remodel = after
         else:
             prev_remodel = None
+        if dis:
+            break
     else:
         # final restore of everything: every recorded file is back, nothing else moved
         before = snap(root)
@@ -702,6 +704,32 @@ def history_execute(ctx, env, st, ans):
 
 
 # ------------------------------------------------------------------------------------------ run
+
+def key_cases(ctx, env, n, items=None):
+    """path mapping, task filter and file selection in isolation (no file system needed beyond a root)"""
+    from hed.tools.util import io_util
+    root = os.path.join(env.tmp, "keys")
+    os.makedirs(root, exist_ok=True)
+    bm = env.BM(root)
+    items = list(items or [])
+    for _ in range(n):
+        rel = [ctx.rng.choice(DIRS) for _ in range(ctx.rng.randint(0, 3))] + [ctx.rng.choice(BASES)]
+        tasks = ctx.rng.choice([[], ["go"], ["stop"], ["go", "stop"], ["nosuch"], ["go_run-1"], [""]])
+        items.append((rel, tasks))
+    ans = mbatch(ctx, [{"op": "c18.key", "path": rel, "tasks": tasks, "stamp": STAMP} for rel, tasks in items])
+    for (rel, tasks), a in zip(items, ans):
+        full = os.path.join(root, *rel)
+        impl = {"key": bm.get_file_key(full),
+                "split": comps(bm.get_backup_path("n", full))[len(comps(bm.backups_path)) + 2:],
+                "picked": (not tasks) or bool(bm.get_task(tasks, full)),
+                "sel": "remodel" not in rel[:-1] and io_util.check_filename(rel[-1], None, "events", [".tsv"]),
+                "recordLen": len(json.dumps({bm.get_file_key(full): STAMP}, indent=4))}
+        ctx.case(("key", tuple(rel), tuple(tasks)), nontrivial=len(rel) > 1)
+        if a != impl:
+            ctx.disagree("joinKey/splitKey/picked/selKey/record = get_file_key/get_backup_path/get_task/check_filename/json.dumps",
+                         {"path": rel, "tasks": tasks}, a, impl)
+    ctx.count("key-cases", n)
+
 
 def gen_crash(rng, i):
     tree = gen_tree(rng, allow_odd=True)
@@ -734,9 +762,10 @@ def run(ctx):
                          "external backups root) x every step index of create_backup; non-trivial = strictly inside the "
                          "step sequence. history: random trees, backup via main or manager, <= 8 operations; non-trivial = "
                          ">= 2 operations")
-    n_crash = 40 if ctx.quick() else 600
-    n_hist = 200 if ctx.quick() else 5000
+    n_crash = 40 if ctx.quick() else 400
+    n_hist = 200 if ctx.quick() else 3000
     with Env() as env:
+        key_cases(ctx, env, 300 if ctx.quick() else 3000)
         specs = CORPUS + [gen_crash(ctx.rng, i) for i in range(n_crash)]
         ctx.samples.extend({"crash": sp["files"], "name": sp["name"]} for sp in specs[4:7])
         crash_cases(ctx, env, specs)
@@ -756,7 +785,9 @@ def replay(ctx, rec):
         return
     spec = {k: v for k, v in case.items() if k not in ("k", "at")}
     with Env() as env:
-        if spec["kind"] == "crash":
+        if "kind" not in spec:
+            key_cases(ctx, env, 0, [(spec["path"], spec["tasks"])])
+        elif spec["kind"] == "crash":
             crash_cases(ctx, env, [spec], only_k=case.get("k"))
         else:
             history_cases(ctx, env, [spec])
